@@ -225,11 +225,13 @@ void do_catch (const char *p, unsigned short new_pc_offset) {
       if (get_error_state (ES_MAX_EVAL_COST))
         {
           pop_context (&econ);
+          set_error_state (ES_MAX_EVAL_COST); /* pop_context() cleared it: an enclosing catch must not swallow this either */
           error ("*Can't catch eval cost too big error.");
         }
       if (get_error_state (ES_STACK_FULL))
         {
           pop_context (&econ);
+          set_error_state (ES_STACK_FULL);
           error ("*Can't catch too deep recursion error.");
         }
     }
